@@ -135,6 +135,8 @@ func alphabet(n, t int, full bool, scope string) []Ev {
 			add("partial-stale", "event_signing_partial_sign_received", reqPartial("batch-B", i, signs, tNorm))
 			add("partial-bad", "event_signing_partial_sign_received", reqPartial("", i, signs, tNorm))
 			add("partial-bad", "event_signing_partial_sign_received", reqPartial("batch-A", i, nil, tNorm))
+			// `"PartialSigns":[]` on the board decodes to an empty, non-nil list
+			add("partial-bad", "event_signing_partial_sign_received", reqPartial("batch-A", i, []requests.PartialSign{}, tNorm))
 			add("partial-bad", "event_signing_partial_sign_received", reqPartial("batch-A", i, []requests.PartialSign{{MessageID: "msg-1"}}, tNorm))
 			add("partial-late", "event_signing_partial_sign_received", reqPartial("batch-A", i, signs, tLate))
 		}
